@@ -29,6 +29,7 @@
 
 #include "snoopy.h"
 
+#include <errno.h>
 #include <stdio.h>
 #include <stdlib.h>
 #include <unistd.h>
@@ -57,6 +58,7 @@ int snoopy_datasource_group (char * const resultBuf, size_t resultBufSize, __att
     char          *buffgr_gid     = NULL;
     long           buffgrsize_gid = 0;
     int            messageLength  = 0;
+    int            lookupRetVal;
 
     /* Allocate memory */
     buffgrsize_gid = sysconf(_SC_GETGR_R_SIZE_MAX);
@@ -68,8 +70,23 @@ int snoopy_datasource_group (char * const resultBuf, size_t resultBufSize, __att
         return snprintf(resultBuf, resultBufSize, "ERROR(malloc)");
     }
 
-    /* Try to get data */
-    if (0 != getgrgid_r(getgid(), &gr, buffgr_gid, buffgrsize_gid, &gr_gid)) {
+    /*
+     * Try to get data. ERANGE means that the entry - or any entry the C library
+     * had to read on its way to it - does not fit into the buffer: retry with a
+     * bigger one (the size suggested by sysconf() is only a hint).
+     */
+    lookupRetVal = getgrgid_r(getgid(), &gr, buffgr_gid, buffgrsize_gid, &gr_gid);
+    while ((ERANGE == lookupRetVal) && (buffgrsize_gid < 1048576)) {
+        char *biggerBuf;
+        buffgrsize_gid *= 2;
+        biggerBuf = realloc(buffgr_gid, buffgrsize_gid);
+        if (NULL == biggerBuf) {
+            break;
+        }
+        buffgr_gid = biggerBuf;
+        lookupRetVal = getgrgid_r(getgid(), &gr, buffgr_gid, buffgrsize_gid, &gr_gid);
+    }
+    if (0 != lookupRetVal) {
         messageLength  = snprintf(resultBuf, resultBufSize, "ERROR(getgrgid_r)");
     } else {
         if (NULL == gr_gid) {
